@@ -57,6 +57,9 @@ ASSUMPTIONS = [
     'port schemas use _default/_updater/_divider/`*` only; updaters accumulate/set/null on '
     'integers; dividers set/zero/null/no_divide (the random ones are C11\'s)',
     'a moved subtree that collides with an existing key at the target holds no process',
+    'no `initial_state` for the daughters of a `_divide` whose mother holds a dict-valued variable '
+    '(F12, recorded for C11: both daughters share that object and one daughter\'s initial_state '
+    'leaks into the other; the model has no sharing)',
     'histories end at the first update that raises (Python leaves a partially applied update '
     'behind; the model returns no tree for it)',
 ]
